@@ -391,7 +391,7 @@ func explainedByKnown(chain [][]byte, hashes []multihash.DecodedMultihash, now t
 
 func TestVerifier(t *testing.T) {
 	name := t.Name()
-	hx.Check(t, 6000, 200000, 0, func(rt *rapid.T) {
+	hx.Check(t, 20000, 1000000, 0, func(rt *rapid.T) {
 		// verification instant: 2000-01-01 + days + seconds + sub-second part
 		days := rapid.IntRange(0, 400).Draw(rt, "days")
 		secs := rapid.IntRange(0, 86399).Draw(rt, "secs")
@@ -578,10 +578,9 @@ func TestWitness_chain_last_cert(t *testing.T) {
 				return
 			}
 			leaf := cli.ConnectionState().PeerCertificates[0]
-			ls := sha256.Sum256(leaf.Raw)
 			violated = true
-			detail = fmt.Sprintf("dialer-side TLS handshake completed with a server certificate whose SHA-256 %x is not among the pinned hashes (pinned %x), that is %v-signed and valid for %v: "+
-				"verifyRawCerts checks rawCerts[len-1] while TLS authenticates rawCerts[0]", ls[:8], sum[:8], leaf.SignatureAlgorithm, leaf.NotAfter.Sub(leaf.NotBefore))
+			detail = fmt.Sprintf("dialer-side TLS handshake completed with a server certificate whose SHA-256 is not among the pinned hashes (pinned %x), that is %v-signed and valid for %v: "+
+				"verifyRawCerts checks rawCerts[len-1] while TLS authenticates rawCerts[0]", sum[:8], leaf.SignatureAlgorithm, leaf.NotAfter.Sub(leaf.NotBefore))
 		})
 		return
 	})
